@@ -15,6 +15,9 @@
      TransformQuad(T,q)    = the quadric of the transformed point set (design check and
                              the scoping of named deviations only; trace validation
                              compares the CODE's transformed surface with Sense(s,p))
+     MatMul Transpose Gemv QuarterRot RodriguesScaled Compose InverseT SPermMat SPermValue
+                           = the integer matrix algebra behind orange/MatrixUtils, transform
+                             composition / inversion and SignedPermutation
 
    A quadric is the record [a, c, b, k]:
         f(x) = a1 x^2 + a2 y^2 + a3 z^2 + c1 xy + c2 yz + c3 zx + b.x + k
@@ -223,4 +226,59 @@ TransformQuad(T, q) ==
             <<M[1][2], M[2][3], M[3][1]>>,
             [i \in 1..3 |-> T.den * Rb[i] - Mt[i]],
             T.den * T.den * q.k - T.den * Dot(Rb, T.t) + Dot(T.t, Mt) \div 2)
+
+\* ---------------------------------------------------------------- matrix algebra
+\* (orange/MatrixUtils on integer matrices; n x n for n = 3, 4; rows are sequences)
+DotN(u, v) == u[1] * v[1] + u[2] * v[2] + u[3] * v[3] + (IF Len(u) = 4 THEN u[4] * v[4] ELSE 0)
+ColN(B, j) == [k \in 1..Len(B) |-> B[k][j]]
+MatMul(A, B) == [i \in 1..Len(A) |-> [j \in 1..Len(A) |-> DotN(A[i], ColN(B, j))]]
+Transpose(A) == [i \in 1..Len(A) |-> ColN(A, i)]
+MatVecN(A, v) == [i \in 1..Len(A) |-> DotN(A[i], v)]
+Trace3(A) == A[1][1] + A[2][2] + A[3][3]
+Ident3 == <<Unit(1), Unit(2), Unit(3)>>
+\* alpha A x + beta y   and   alpha A^T x + beta y
+Gemv(al, A, x, be, y) == [i \in 1..3 |-> al * Dot(A[i], x) + be * y[i]]
+GemvT(al, A, x, be, y) == Gemv(al, Transpose(A), x, be, y)
+
+\* cos / sin of q quarter turns, any integer q
+QuarterCos(q) == LET r == ((q % 4) + 4) % 4 IN IF r = 0 THEN 1 ELSE IF r = 2 THEN -1 ELSE 0
+QuarterSin(q) == QuarterCos(q - 1)
+\* rotation by q quarter turns about cartesian axis ax (1..3), counter-clockwise seen from +ax:
+\* with u, v the next two axes cyclically, e_u -> cos e_u + sin e_v
+QuarterRot(ax, q) ==
+  LET u == (ax % 3) + 1
+      v == ((ax + 1) % 3) + 1
+      c == QuarterCos(q)
+      sn == QuarterSin(q)
+  IN [i \in 1..3 |-> [j \in 1..3 |->
+        IF i = ax /\ j = ax THEN 1
+        ELSE IF i = u /\ j = u THEN c
+        ELSE IF i = u /\ j = v THEN -sn
+        ELSE IF i = v /\ j = u THEN sn
+        ELSE IF i = v /\ j = v THEN c
+        ELSE 0]]
+\* Rodrigues' formula for an integer axis n with n.n = m^2 and q quarter turns, times m^2:
+\*   m^2 R = cos m^2 I + (1 - cos) n n^T + sin m [n]x
+CrossMat(n) == << <<0, -n[3], n[2]>>, <<n[3], 0, -n[1]>>, <<-n[2], n[1], 0>> >>
+RodriguesScaled(n, m, q) ==
+  LET c == QuarterCos(q)  sn == QuarterSin(q)  X == CrossMat(n) IN
+  [i \in 1..3 |-> [j \in 1..3 |->
+     (IF i = j THEN c * m * m ELSE 0) + (1 - c) * n[i] * n[j] + sn * m * X[i][j]]]
+
+\* composition  A o B  (apply B first) and inverse of lattice transforms; both need the
+\* translation parts to stay on the lattice (guards ComposeOK / InverseOK)
+ComposeOK(A, B) == DivBy(MatVec(A.R, B.t), A.den)
+Compose(A, B) == [R |-> MatMul(A.R, B.R), den |-> A.den * B.den,
+                  t |-> VAdd(VDiv(MatVec(A.R, B.t), A.den), A.t)]
+InverseOK(T) == DivBy(TMatVec(T.R, T.t), T.den)
+InverseT(T) == [R |-> Transpose(T.R), den |-> T.den,
+                t |-> VScale(-1, VDiv(TMatVec(T.R, T.t), T.den))]
+
+\* SignedPermutation: ax = <<  <<sign, axis>>, ... >> for the rows x', y', z' (axis 0..2): row i of
+\* the daughter-to-parent matrix has the entry `sign` in column axis+1
+SPermMat(ax) == [i \in 1..3 |-> [j \in 1..3 |-> IF j = ax[i][2] + 1 THEN ax[i][1] ELSE 0]]
+SPermValid(ax) == {ax[i][2] : i \in 1..3} = {0, 1, 2} /\ Det(SPermMat(ax)) = 1
+\* documented storage: [flip z'][z' axis][flip y'][y' axis][flip x'][x' axis], bits 8..0
+SPermValue(ax) ==
+  LET part(i) == ax[i][2] + (IF ax[i][1] < 0 THEN 4 ELSE 0) IN part(1) + 8 * part(2) + 64 * part(3)
 =============================================================================
